@@ -402,6 +402,13 @@ func HandleMoveFile(cc *hotline.ClientConn, t *hotline.Transaction) (res []hotli
 		return res
 	}
 
+	// The file root itself cannot be moved: the move would take the root's own entry (and its fork side-files), which
+	// live outside the root.  (A root that is a directory cannot be moved into itself anyway; a root that is a
+	// symbolic link can.)
+	if filepath.Clean(filePath) == filepath.Clean(cc.FileRoot()) {
+		return cc.NewErrReply(t, "Cannot move the file root.")
+	}
+
 	cc.Logger.Info("Move file", "src", filePath+"/"+fileName, "dst", fileNewPath+"/"+fileName)
 
 	hlFile, err := hotline.NewFileWrapper(cc.Server.FS, filePath, 0)
